@@ -140,7 +140,7 @@ def _build_atoms(K, closure):
             neg_phi = LNot(phi)
 
             A_tail = []
-            if isinstance(phi, CTLS.Bool):
+            if isinstance(phi, CTLS.Bool) or phi == Lang.Not(False):
                 for atom in A:
                     atom.add(phi)
             else:
